@@ -54,8 +54,10 @@ func runC08(r *Run) {
 	if lim == -2 {
 		eff = 32768
 	}
-	special := t.Weighted(12, 2, 2) // 0 ordinary messages, 1 compression bomb, 2 huge declared length
-	if special == 1 && (!rc.Neg.Deflate || api == 2) {
+	// 0 ordinary messages, 1 compression bomb, 2 huge declared length, 3 megabytes of
+	// payload after the final DEFLATE block of a compressed message
+	special := t.Weighted(12, 2, 2, 2)
+	if (special == 1 || special == 3) && (!rc.Neg.Deflate || api == 2) {
 		special = 0 // (the bomb is not a JSON document)
 	}
 	nMsgs := 1 + t.Draw(3)
@@ -186,8 +188,30 @@ func runC08(r *Run) {
 			stream = append(stream, peer.Encode(f)...)
 			plan = append(plan, p)
 		}
+	case 3:
+		if !last.over {
+			// a compressed message whose DEFLATE stream ends with a final block; the same
+			// message goes on for another 4 MiB, which the library has to skip (the next
+			// message starts behind it) without keeping it
+			p := planned{size: 100, special: 3, comp: true, bfinal: true, newLim: -3}
+			if cur >= 0 && int64(p.size) > cur {
+				p.size = int(cur)
+			}
+			p.data = Payload{Kind: 3, Len: p.size, Seed: 98}.Bytes()
+			fs := MessageFrames(MsgSpec{Typ: typ, Data: p.data, Compress: true, BFinal: true, Frags: []int{p.size}}, comp)
+			fs[len(fs)-1].Fin = false
+			junk := Payload{Kind: 2, Len: 65536, Seed: 97}.Bytes()
+			for k := 0; k < 64; k++ {
+				fs = append(fs, wsref.Frame{Fin: k == 63, Opcode: wsref.OpCont, Payload: junk})
+			}
+			stream = append(stream, peer.Encode(fs...)...)
+			plan = append(plan, p)
+		}
 	}
 	endEOF := t.Draw(2) == 1
+	if special == 3 {
+		endEOF = true
+	}
 	// asyncLimit: the limit is changed by another goroutine while the reader is
 	// already blocked waiting for the next message (which then arrives)
 	asyncLimit := special == 0 && t.Pct(30)
@@ -328,6 +352,12 @@ func runC08(r *Run) {
 	for i, rs := range results {
 		p := plan[i]
 		over := curLim >= 0 && int64(p.size) > curLim
+		if p.special == 3 {
+			// (what a message with bytes behind its final DEFLATE block decodes to is
+			// not prescribed; it must end, and must not cost memory)
+			allowance += int64(p.size)
+			continue
+		}
 		if p.special == 2 {
 			over = true
 			if api == 3 {
